@@ -157,6 +157,40 @@ def uniqueIds (d : Desc) : Bool := (ids d).Nodup
 def wf (d : Desc) : Bool :=
   uniqueIds d && d.all (fun i => sortedStrict i.tokens && (i.state != .LEFT || i.tokens.isEmpty)) && !conflictsExist d
 
+/-! ## vocabulary of the property statements (C03, and C04/C06 which build on it)
+
+These definitions are what the theorems of `Props/C03.lean` are *stated* with; they live here, next to
+the model, so that a statement can be read without opening a proof file. -/
+
+/-- rank of an entry in the last-writer-wins order: the newer timestamp is larger and, at equal
+timestamps, a tombstone (LEFT) is larger: `2·ts + [state = LEFT]`. -/
+def rk (e : Inst) : Int := 2 * e.ts + (if e.state = .LEFT then 1 else 0)
+
+/-- rank of a possibly missing entry; a missing entry has rank 0 (below every entry of timestamp ≥ 1) -/
+def rkO : Option Inst → Int
+  | none => 0
+  | some e => rk e
+
+/-- The property's proviso "each (entry, timestamp) pair denotes one content and no two instances
+claim the same token", as a *universe*: `U id ts left` is THE content of instance `id` at timestamp
+`ts` (tombstone iff `left`). Contents are normalised (strictly sorted tokens, tombstones hold none).
+`noclash` quantifies over ALL timestamps of both instances: no token is EVER claimed by two different
+ids, not even at disjoint times (`PC03.merge_diverges_on_token_handover` shows this is needed). -/
+structure Univ (U : String → Int → Bool → Inst) : Prop where
+  id_eq : ∀ id ts l, (U id ts l).id = id
+  ts_eq : ∀ id ts l, (U id ts l).ts = ts
+  left_iff : ∀ id ts l, (U id ts l).state = .LEFT ↔ l = true
+  sorted : ∀ id ts l, sortedStrict (U id ts l).tokens = true
+  left_tokens : ∀ id ts, (U id ts true).tokens = []
+  noclash : ∀ id ts l id' ts' l', id ≠ id' → ∀ t ∈ (U id ts l).tokens, t ∉ (U id' ts' l').tokens
+
+/-- a descriptor drawn from the universe: unique ids, timestamps ≥ 1, every entry is the universe's
+content for its (id, timestamp, tombstone-ness) -/
+structure Drawn (U : String → Int → Bool → Inst) (d : Desc) : Prop where
+  nodup : (ids d).Nodup
+  pos : ∀ e ∈ d, e.ts ≥ 1
+  coh : ∀ e ∈ d, e = U e.id e.ts (decide (e.state = .LEFT))
+
 /-- sort entries by id for canonical display -/
 def insertById (x : Inst) : Desc → Desc
   | [] => [x]
